@@ -108,8 +108,14 @@ def run_tasks(prop, tasks, nworkers=14, timeout=60.0, env_extra=None, cwd=None, 
             if on_result:
                 on_result(r)
 
+    first = [True]
+
     def loop():
-        w = _Worker(prop, env_extra, cwd)
+        with lock:
+            probe = first[0]
+            first[0] = False
+        # one worker per run carries the anchor coverage probe (sys.monitoring LINE events, self-disabling)
+        w = _Worker(prop, dict(env_extra or {}, VERIF_COVER="1") if probe else env_extra, cwd)
         try:
             while True:
                 try:
@@ -151,6 +157,11 @@ def run_tasks(prop, tasks, nworkers=14, timeout=60.0, env_extra=None, cwd=None, 
                         if r.get("done"):
                             nxt = hi
                             break
+                        if "coverage" in r:
+                            if on_result:
+                                with lock:
+                                    on_result(r)
+                            continue
                         emit(r)
                         nxt = r.get("i", nxt) + 1
         finally:
